@@ -47,6 +47,34 @@ func (e *Engine) nativeOf(v Value) (interface{}, bool) {
 		}
 		return out, true
 	case *MapV:
+		// a map whose keys are stored as interface values is an interface-keyed Go map
+		// (map[interface{}]T): encoding/json rejects those, so the native value must keep that type
+		if v != nil {
+			ifaceKeys := false
+			for i, k := range v.keys {
+				if _, isI := k.(Iface); isI && !v.del[i] {
+					ifaceKeys = true
+				}
+			}
+			if ifaceKeys {
+				out := map[interface{}]interface{}{}
+				for i, k := range v.keys {
+					if v.del[i] {
+						continue
+					}
+					nk, ok := e.nativeOf(k)
+					if !ok {
+						return nil, false
+					}
+					x, ok := e.nativeOf(v.vals[i])
+					if !ok {
+						return nil, false
+					}
+					out[nk] = x
+				}
+				return out, true
+			}
+		}
 		out := map[string]interface{}{}
 		if v != nil {
 			for i, k := range v.keys {
@@ -125,6 +153,15 @@ func init() {
 		}
 		b, err := json.Marshal(n)
 		if err != nil {
+			if ute, ok := err.(*json.UnsupportedTypeError); ok && ute.Type.Kind() == reflect.Map {
+				// keep the error's Go type, so that errors.As in the interpreted program finds it
+				if jp := e.prog.ImportedPackage("encoding/json"); jp != nil {
+					empty := types.NewInterfaceType(nil, nil)
+					cell := new(Value)
+					*cell = Struct{rtIface(types.NewMap(empty, empty))}
+					return Tuple{Slice{Nil: true}, Iface{T: types.NewPointer(jp.Type("UnsupportedTypeError").Type()), V: cell}}
+				}
+			}
 			return Tuple{Slice{Nil: true}, e.mkError(err.Error())}
 		}
 		return Tuple{bytesVal(b), Iface{}}
